@@ -447,3 +447,28 @@ def intelhex_address_width(run, R="TAB-fmt"):
                     handled = True
     run.check(handled, R, R + "|intelhex|address-width", fns[0].loc(), "addresses beyond 16 bits are handled (extended address record or rejection)",
               "format_intelhex prints only the low 16 bits of a record address and neither emits extended address records nor rejects larger addresses: data beyond 64K address units wraps around onto the first 64K")
+
+
+def intelhex_unit_aligned(run, R="TAB-fmt"):
+    """Intel HEX records address whole units: the bit position a record starts at is a block's offset rounded down to a multiple
+    of the address unit (offset - offset % unit), and its end is rounded up -- a block that starts inside a unit is not written as
+    if it started on one"""
+    from rules_sym import deep
+    fs = [f for f in run.prog.real_fns() if f.kind == "AssocFn" and f.id.endswith("::format_intelhex")]
+    if len(fs) != 1:
+        run.violation(R, R + "|intelhex|unit-aligned", "-", "mechanism not found: format_intelhex")
+        return
+    f = fs[0]
+    unit = [i for i in range(1, f.arg_count + 1) if f.local_ty(i) == "usize"]
+    down = up = False
+    if len(unit) == 1:
+        U = "P%d" % unit[0]
+        for bi, si, st in f.stmts():
+            if st["k"] == "assign" and st["rv"]["k"] == "binop" and st["rv"]["op"] == "Rem" and deep(f, st["rv"]["r"], 3) == U:
+                l = deep(f, st["rv"]["l"], 6)
+                if l.endswith(".offset"):
+                    down = True
+                elif ".offset" in l and ".size" in l:
+                    up = True
+    run.check(down and up, R, R + "|intelhex|unit-aligned", f.loc(), "record ranges are block ranges widened to address-unit boundaries",
+              "format_intelhex starts its records at the raw bit offset of a block (%s): a block that does not start on a byte / address-unit boundary (`#d8 0x11 / #d4 2 / #res 1 / #d8 0x33`; or `#res 2` between bytes with `addr_unit:16`) gets a record whose address is rounded down while its data is not shifted, so the bytes land at the wrong addresses" % ("no rounding of the start" if not down else "no rounding of the end"))
